@@ -15,7 +15,7 @@
         it contains an entry; the whole-map view always exists.
     Generic proofs: ViewsThm.v, ViewsExtra.v, MutTrav.v, Canon.v, History.v. *)
 From Coq Require Import List NArith Bool Sorted.
-From PT Require Import Lookup Lookup2 ViewsThm ViewsExtra MutTrav Canon.
+From PT Require Import Lookup Lookup2 ViewsThm ViewsExtra MutTrav Canon Arena Arena3 ArenaProps ArenaViews.
 From PT.Properties Require Import Common.
 Import ListNotations.
 
@@ -358,6 +358,38 @@ Proof.
   - rewrite C11_has_left, <- Sl. destruct (t_vm_left w V T m); cbn; split; intros H; congruence.
 Qed.
 
+(* ---------------------------------------------------------------------------------------- *)
+(** * The same statements about the ARENA-level transcription of [TrieView] / [TrieViewMut]
+      ([Arena3.a_v_*] / [a_vm_*], ArenaViews.v): [am] is any arena reachable from the empty arena by a
+      history over the whole mutator alphabet; [es] is what the map's / the view's own iteration
+      yields.  Only arena-level observations occur in the statements. *)
+Notation avreach am := (a_vreach pfx V (peq w) (contains w fl) (is_bit_set w) plen (lcp w fl) (okp w) (Arena.tbl am)).
+Notation aviter am := (a_v_iter pfx V (Arena.tbl am)).
+
+(** [view_at q] / [view_mut_at q] ([find q] at the root location, both families) *)
+Theorem C11_arena_view_at (am : Arena.amap pfx V) q es :
+  areach pfx V (peq w) (contains w fl) (is_bit_set w) plen (lcp w fl) pzero (okp w) am -> okp w q -> Arena.a_entries pfx V am = Arena.Ok es ->
+  exists o, Arena3.a_v_find pfx V (peq w) (contains w fl) (is_bit_set w) plen (lcp w fl) (Arena.tbl am) (Arena3.LNode 0) q = Arena.Ok o /\
+            Arena3.a_vm_find pfx V (peq w) (contains w fl) (is_bit_set w) plen (lcp w fl) (Arena.tbl am) (Arena3.LNode 0) q = Arena.Ok o /\
+    match o with
+    | Some l' => avreach am l' /\ aviter am l' = Arena.Ok (filter (under (kbits w q)) es) /\
+                 exists p, Arena3.a_v_prefix pfx V (Arena.tbl am) l' = Arena.Ok p /\ kbits w p = kbits w q
+    | None => filter (under (kbits w q)) es = []
+    end.
+Proof. exact (arena_C11_view_at pfx V _ _ _ _ _ _ _ _ _ LAWS am q es). Qed.
+
+(** [left()] ([s = false]) / [right()] ([s = true]) at any location reachable by navigation *)
+Theorem C11_arena_side (am : Arena.amap pfx V) l (s : bool) p es :
+  areach pfx V (peq w) (contains w fl) (is_bit_set w) plen (lcp w fl) pzero (okp w) am -> avreach am l ->
+  Arena3.a_v_prefix pfx V (Arena.tbl am) l = Arena.Ok p -> aviter am l = Arena.Ok es ->
+  exists o, (if s then Arena3.a_v_right pfx V (is_bit_set w) plen (Arena.tbl am) l
+             else Arena3.a_v_left pfx V (is_bit_set w) plen (Arena.tbl am) l) = Arena.Ok o /\
+    match o with
+    | Some l' => avreach am l' /\ aviter am l' = Arena.Ok (filter (under (kbits w p ++ [s])) es)
+    | None => filter (under (kbits w p ++ [s])) es = []
+    end.
+Proof. exact (arena_C11_side pfx V _ _ _ _ _ _ _ _ _ LAWS am l s p es). Qed.
+
 End C11.
 
 (** non-vacuity, [w = 8], the map {1/1 -> 1, 10/2 -> 2, 11/2 -> 3, 101/3 -> 4, 11010/5 -> 5}:
@@ -443,3 +475,5 @@ Print Assumptions C11_canon_side.
 Print Assumptions C11_canon_find.
 Print Assumptions C11_canon_nonempty.
 Print Assumptions C11_canon_mut_side.
+Print Assumptions C11_arena_view_at.
+Print Assumptions C11_arena_side.
